@@ -81,6 +81,7 @@ func VerifC20_New() {
 
 func VerifC20_Add() {
 	c := uint64(vChoice("cap", vMaxCap()) + 1)
+	vSplit("cap") // one query per capacity: the position arithmetic is modulo the capacity
 	for cc := uint64(1); cc <= uint64(vMaxCap()); cc++ {
 		if c != cc {
 			continue
@@ -102,6 +103,7 @@ func VerifC20_Add() {
 
 func VerifC20_Resize() {
 	c := uint64(vChoice("cap", vMaxCap()) + 1)
+	vSplit("cap") // one query per capacity: the position arithmetic is modulo the capacity
 	m := uint64(vChoice("newcap", vMaxCap()) + 1)
 	for cc := uint64(1); cc <= uint64(vMaxCap()); cc++ {
 		for mm := uint64(1); mm <= uint64(vMaxCap()); mm++ {
@@ -127,6 +129,7 @@ func VerifC20_Resize() {
 func VerifC20_GetEventsFromID() {
 	vSliceBound(2*vMaxCap() + 2)
 	c := uint64(vChoice("cap", vMaxCap()) + 1)
+	vSplit("cap") // one query per capacity: the position arithmetic is modulo the capacity
 	for cc := uint64(1); cc <= uint64(vMaxCap()); cc++ {
 		if c != cc {
 			continue
@@ -163,6 +166,7 @@ func VerifC20_GetEventsFromID() {
 func VerifC20_GetRecentEvents() {
 	vSliceBound(2*vMaxCap() + 2)
 	c := uint64(vChoice("cap", vMaxCap()) + 1)
+	vSplit("cap") // one query per capacity: the position arithmetic is modulo the capacity
 	for cc := uint64(1); cc <= uint64(vMaxCap()); cc++ {
 		if c != cc {
 			continue
